@@ -85,9 +85,10 @@ def nm(n):
 
 class RFn:
     """one function to translate; kind = 'rule' (method of rrule: self is the rule) | 'info' (method of _iterinfo)"""
-    def __init__(self, qualname, leanname, kind, params, ret, locals_=None):
+    def __init__(self, qualname, leanname, kind, params, ret, locals_=None, split=False):
         self.qualname, self.leanname, self.kind, self.params, self.ret = qualname, leanname, kind, params, ret
         self.locals = locals_ or {}
+        self.split = split          # top-level `if` statements become definitions of their own
 
 
 def module_consts(tree):
@@ -117,6 +118,8 @@ class RTr:
         self.types = {}
         self.tmp = 0
         self.nloop = 0
+        self.nsec = 0
+        self.nest = 0
         self.aux = []
         self.loop = None          # dict(cont=fn()->lines, brk=fn()->lines, has_ret=bool, depth=int)
         self.rr_alias = set()     # local names bound to self.rrule
@@ -648,7 +651,9 @@ class RTr:
 
     def branch(self, stmts, k, lo):
         saved = dict(self.types)
+        self.nest += 1
         lines = self.block(stmts, k, lo)
+        self.nest -= 1
         self.types = saved
         return lines or ["pure ()"]
 
@@ -658,7 +663,8 @@ class RTr:
         if c == "False":                       # statically false test: the branch is dropped
             return self.block(list(s.orelse) + rest, k, lo)
         tb, te = self.terminates(s.body), self.terminates(s.orelse)
-        if tb or te or self.escapes(s.body) or self.escapes(s.orelse) or not rest:
+        sectioned = self.spec.split and self.nest <= 1 and not self.loop
+        if tb or te or self.escapes(s.body) or self.escapes(s.orelse) or (not rest and not sectioned):
             a = self.branch(list(s.body) + ([] if tb else rest), k, lo)
             b = self.branch(list(s.orelse) + ([] if te else rest), k, lo)
             return pre + ["if %s then" % c] + self.ind(a) + ["else"] + self.ind(b)
@@ -667,6 +673,7 @@ class RTr:
         if not vs:
             raise Untranslatable("if without a live effect")
         dummies = []
+        types_before = dict(self.types)
         for v in vs:
             if v not in self.types:
                 ty = self.spec.locals.get(v, "Int")
@@ -679,6 +686,18 @@ class RTr:
         # types assigned inside the branches
         for v in vs: self.set_type(v, self.types.get(v, "Int"))
         self.loop = saved_loop
+        if sectioned:
+            # a top-level `if` of a long method becomes its own definition (same join, named): one obligation per section
+            self.nsec += 1
+            name = "%s_if%d" % (self.spec.leanname, self.nsec)
+            ins = sorted(v for v in self.live([s], set(vs), None, None) if v in types_before)
+            uses_rr = any(self.is_rule(n) for n in ast.walk(s) if isinstance(n, (ast.Name, ast.Attribute)))
+            params = (["(rr : RRule.Rule)"] if uses_rr else []) + ["(%s : %s)" % (nm(v), lean_ty(types_before[v])) for v in ins]
+            text = "def %s %s : Py.R (%s) := do\n" % (name, " ".join(params), self.tup_ty(vs))
+            text += "\n".join(self.ind(pre + dummies + ["if %s then" % c] + self.ind(a) + ["else"] + self.ind(b))) + "\n"
+            self.aux.append(text)
+            call = name + (" rr" if uses_rr else "") + "".join(" " + nm(v) for v in ins)
+            return ["let %s ← %s" % (self.tup(vs), call)] + self.block(rest, k, lo)
         lines = pre + dummies + ["let %s ← (do" % self.tup(vs)] + self.ind(["if %s then" % c] + self.ind(a) + ["else"] + self.ind(b), 2)
         lines[-1] += ")"
         return lines + self.block(rest, k, lo)
@@ -817,7 +836,7 @@ RR_SPECS = [
     RFn("rrule.__construct_byset", "constructByset", "rule", [("start", "Int"), ("byxxx", "IntList"), ("base", "Int")], "IntSet",
         {"cset": "IntSet"}),
     RFn("rrule.__mod_distance", "modDistance", "rule", [("value", "Int"), ("byxxx", "IntList"), ("base", "Int")], "OptPair"),
-    RFn("_iterinfo.rebuild", "rebuild", "info", [("year", "Int"), ("month", "Int")], "II", {"ranges": "ListList"}),
+    RFn("_iterinfo.rebuild", "rebuild", "info", [("year", "Int"), ("month", "Int")], "II", {"ranges": "ListList"}, split=True),
     RFn("_iterinfo.ydayset", "ydayset", "info", [("year", "Int"), ("month", "Int"), ("day", "Int")], ("IntList", "Int", "Int")),
     RFn("_iterinfo.mdayset", "mdayset", "info", [("year", "Int"), ("month", "Int"), ("day", "Int")], ("Slots", "Int", "Int"),
         {"dset": "Slots"}),
